@@ -210,6 +210,16 @@ def b_and(a, b):
         return b
     if b is True:
         return a
+    # push the conjunction into conditionals (so that `i != n && a[i] < b[i]` never keeps the unreachable a[n])
+    if isinstance(a, tuple) and a and a[0] == "g":
+        bt, bf = (b[2], b[3]) if (isinstance(b, tuple) and b and b[0] == "g" and b[1] == a[1]) else (b, b)
+        return gamma(a[1], b_and(a[2], bt), b_and(a[3], bf))
+    if isinstance(a, tuple) and a and a[0] in ("cmp", "not") and isinstance(b, tuple) and b and b[0] in ("g", "and", "or"):
+        b = assume(b, a, True)         # the right operand of && is only evaluated when the left one holds
+        if b is True:
+            return a
+        if b is False:
+            return False
     return ("and", a, b)
 
 
@@ -267,6 +277,20 @@ class Evaluator:
                 raise Inconclusive("no field %r in %s" % (p, v.type))
             return v.f[p]
         if isinstance(v, Arr):
+            if isinstance(p, tuple) and p and p[0] == "g":
+                # an index chosen by a condition among concrete positions: the element is chosen the same way.  A
+                # position outside the array yields a poison value: harmless if the surrounding condition excludes it
+                # (`i != n && a[i] < b[i]`), reported if it reaches a result.
+                def pick(q):
+                    try:
+                        return self._child(v, q)
+                    except Inconclusive as x:
+                        if str(x).startswith("bad array index"):
+                            return ("oob", str(x))
+                        raise
+                return gamma(p[1], pick(p[2]), pick(p[3]))
+            if isinstance(p, bool) or (isinstance(p, tuple) and p and p[0] == "c" and p[1].denominator == 1):
+                p = int(p) if isinstance(p, bool) else int(p[1])
             if not isinstance(p, int):
                 raise Inconclusive("symbolic array index")
             if p < 0 or p >= len(v.items):
@@ -1158,6 +1182,14 @@ class Evaluator:
             a = int(a)
         if isinstance(b, bool):
             b = int(b)
+        if (isinstance(a, tuple) and a and a[0] == "oob") or (isinstance(b, tuple) and b and b[0] == "oob"):
+            return ("oob", (a if isinstance(a, tuple) and a and a[0] == "oob" else b)[1])
+        # a comparison of conditionally chosen values is the conditional choice of the comparisons
+        if isinstance(a, tuple) and a and a[0] == "g":
+            bt, bf = (b[2], b[3]) if (isinstance(b, tuple) and b and b[0] == "g" and b[1] == a[1]) else (b, b)
+            return gamma(a[1], self.compare(op, a[2], bt), self.compare(op, a[3], bf))
+        if isinstance(b, tuple) and b and b[0] == "g":
+            return gamma(b[1], self.compare(op, a, b[2]), self.compare(op, a, b[3]))
         if isinstance(a, int) and isinstance(b, int):
             return {"==": a == b, "!=": a != b, "<": a < b, ">": a > b, "<=": a <= b, ">=": a >= b}[op]
         if isinstance(a, tuple) and isinstance(b, tuple) and a and b:
